@@ -220,6 +220,11 @@ def run_shard(ctx):
             try:
                 ids, log, ap = data_step_rows(db, plan)
             except NotInterpretable as e:
+                if 'Latest' in str(e):
+                    # LATEST is the planner's own marker: it stays in output_time_filter, no integration can evaluate it
+                    acc.fail({'part': 'latest-marker-in-fetch-query', 'op': op}, {'text': text, 'why': str(e)[:120],
+                                                                                   'plan': [str(s)[:260] for s in plan.steps][:6]})
+                    continue
                 acc.count('not_interpretable')
                 acc.add('not_interpretable_why', str(e)[:60])
                 continue
